@@ -6,6 +6,7 @@
    time-out is delivered only to a busy action) is the hypothesis [busy_ok] here and is discharged
    by the pipeline model. *)
 From Verif Require Import Base.Sx Base.GoSem Model.Join Model.K8sMultiline Proofs.Join Proofs.K8sMultiline.
+From Verif Require Import Model.C15Pipe Proofs.C15Pipe.
 
 (* ---- join ------------------------------------------------------------------------------------- *)
 (* for every configuration (max_event_size, negate flags, any number of templates) and every input
@@ -262,4 +263,101 @@ Example c15_k8s_cut_nonvacuous :
       (0, 0, Some [34; 97; 98; 99; 100; 101; 102; 92; 110; 34]%N, true)], Ok kstate0) /\
   k_run {| kmax := 6; ksplit := 524288; kcut := true; kfield := true; konly := false |} kstate0 ex_cut_chunks2 =
     ([(1, 1, None, false); (1, 0, None, false); (0, 0, Some [34; 92; 110; 34]%N, true)], Ok kstate0).
+Proof. vm_compute. repeat split; reflexivity. Qed.
+
+(* ---- k8s: after a time-out the action must be as good as new (sub-model 9, k_spec_t) ------------- *)
+(* A time-out ends the action's claim on the stream (it is not busy any more: the processor may serve any other
+   stream next), so the steps that follow must be those of a fresh action: k_spec_t.  REFUTED for the code:
+   skipNextEvent survives the time-out; when the line that timed out had exceeded max_event_size, the next line -
+   of whatever stream - is discarded up to its end (finding C15-k8s-timeout-keeps-skip) *)
+Theorem c15_k8s_timeout_fresh_refuted :
+  exists c xs, konly c = false /\ forallb frag_ok xs = true /\
+    is_ok (snd (k_run c kstate0 xs)) = true /\
+    fst (k_run c kstate0 xs) <> k_spec_t c [] xs /\
+    map (fun o : kstep => fst (fst (fst o))) (fst (k_run c kstate0 xs)) = [ACollapse; ADiscard; ADiscard; APass] /\
+    map (fun o : kstep => fst (fst (fst o))) (k_spec_t c [] xs) = [ACollapse; ADiscard; APass; APass].
+Proof. exact k8s_timeout_fresh_refuted. Qed.
+Print Assumptions c15_k8s_timeout_fresh_refuted.
+
+(* the strongest true restriction over ALL placements of time-outs: without a size limit every step is k_spec_t *)
+Theorem c15_k8s_timeout_fresh_partial : forall c xs,
+  konly c = false -> kmax c = 0 -> forallb frag_ok xs = true ->
+  exists st, k_run c kstate0 xs = (k_spec_t c [] xs, Ok st).
+Proof. exact k8s_timeout_fresh_partial. Qed.
+Print Assumptions c15_k8s_timeout_fresh_partial.
+
+(* ---- the join plugin inside the pipeline (Model/C15Pipe.v, sub-model 6) ------------------------- *)
+(* "events of different streams or sources are never merged": the pipeline has one plugin instance per
+   processor, not one per stream.  For every configuration and every log of Do calls (instance, stream,
+   event) - any interleaving of any number of streams over any number of instances, time-outs included -
+   in which the delivery discipline holds (an instance that is busy receives only the stream it holds; a
+   stream is never handed to a second instance while one is busy with it: monitor 2 of the harness), the
+   per-instance state machines return, call by call, exactly the results and emissions that one state
+   machine PER STREAM returns: a stream is joined as if it had the action to itself. *)
+Theorem c15_pipe_instances_as_one : forall c log os,
+  inst_run c [] log = (os, true) ->
+  pj_disc [] (zip_busy log os) = true ->
+  stream_run c [] log = (os, true).
+Proof. exact pj_instances_as_one. Qed.
+Print Assumptions c15_pipe_instances_as_one.
+
+(* what the harness accepts per stream (monitor 3: the Do calls of the stream replayed against the events fed
+   to it, a rejected event skipped only by an idle action) is a panic-free run of the join state machine with
+   the observed ActionResults, one input per Do call, and it satisfies [busy_ok]: the delivery hypothesis of
+   c15_join_runs / c15_join_never_panics is discharged on every accepted trace of the real pipeline *)
+Theorem c15_pipe_gate_sound : forall c stop fed dos outs,
+  gate_run c stop jstate0 fed dos outs = true ->
+  exists evs os st',
+    join_run c jstate0 evs = (os, Ok st') /\
+    map (fun o : jstep => fst o) os = map pd_res dos /\
+    length evs = length dos /\
+    busy_ok c evs = true.
+Proof. exact pj_gate_sound. Qed.
+Print Assumptions c15_pipe_gate_sound.
+
+(* a run still open when the observation ends is accepted only for a stopped pipeline, and nothing of it has
+   reached the output *)
+Theorem c15_pipe_open_run_only_when_stopped : forall c stop st fed outs,
+  isJoining st = true -> gate_run c stop st fed [] outs = true -> stop = true /\ outs = [].
+Proof. exact pj_gate_open_run. Qed.
+Print Assumptions c15_pipe_open_run_only_when_stopped.
+
+(* two streams over two instances: stream 7 starts a run on instance 0, stream 8 is served by instance 1
+   meanwhile (its continuation-looking line passes: nothing is open THERE), stream 7 continues on instance 0,
+   a time-out flushes it; then stream 8 starts a run on instance 0.  The discipline holds, both replays agree;
+   and the log in which instance 0, busy with stream 7, receives stream 8's line breaks the discipline - the
+   two replays then differ (the line is swallowed by stream 7's run) *)
+Definition ex_pj_cfg : jcfg := {| jmax := 0; jnegs := [false] |}.
+Definition ex_S (id : Z) : jev := (id, JField true [83]%N [true] [false]).
+Definition ex_C (id : Z) : jev := (id, JField true [67]%N [false] [true]).
+Definition ex_pj_log : list pjcall :=
+  [(0, 7, ex_S 0); (1, 8, ex_C 1); (0, 7, ex_C 2); (0, 7, (-1, JTimeout)); (0, 8, ex_S 3)].
+Definition ex_pj_bad : list pjcall := [(0, 7, ex_S 0); (0, 8, ex_C 1)].
+
+Example c15_pipe_nonvacuous :
+  inst_run ex_pj_cfg [] ex_pj_log =
+    ([(AHold, []); (APass, []); (ACollapse, []); (ADiscard, [(0, [83; 67]%N)]); (AHold, [])], true) /\
+  pj_disc [] (zip_busy ex_pj_log (fst (inst_run ex_pj_cfg [] ex_pj_log))) = true /\
+  stream_run ex_pj_cfg [] ex_pj_log = inst_run ex_pj_cfg [] ex_pj_log /\
+  pj_disc [] (zip_busy ex_pj_bad (fst (inst_run ex_pj_cfg [] ex_pj_bad))) = false /\
+  inst_run ex_pj_cfg [] ex_pj_bad = ([(AHold, []); (ACollapse, [])], true) /\
+  stream_run ex_pj_cfg [] ex_pj_bad = ([(AHold, []); (APass, [])], true).
+Proof. vm_compute. repeat split; reflexivity. Qed.
+
+(* monitor 3 on a stream of four events: S (rejected by the selector, the action is idle: skipped, passes),
+   S (accepted: Hold), C (rejected, but the action is busy: delivered, Collapse), time-out (flush "SC") *)
+Definition ex_fed : list (Z * pjev) :=
+  [(0, {| pe_stream := 0; pe_match := false; pe_in := snd (ex_S 0) |});
+   (1, {| pe_stream := 0; pe_match := true; pe_in := snd (ex_S 1) |});
+   (2, {| pe_stream := 0; pe_match := false; pe_in := snd (ex_C 2) |})].
+Definition ex_dos : list pjdo :=
+  [{| pd_inst := 0; pd_stream := 0; pd_timeout := false; pd_id := 1; pd_res := AHold |};
+   {| pd_inst := 0; pd_stream := 0; pd_timeout := false; pd_id := 2; pd_res := ACollapse |};
+   {| pd_inst := 0; pd_stream := 0; pd_timeout := true; pd_id := -1; pd_res := ADiscard |}].
+
+Example c15_pipe_gate_nonvacuous :
+  gate_run ex_pj_cfg false jstate0 ex_fed ex_dos [(0, true, [83]%N); (1, true, [83; 67]%N)] = true /\
+  gate_run ex_pj_cfg false jstate0 ex_fed ex_dos [(0, true, [83]%N); (1, true, [83]%N)] = false /\
+  gate_run ex_pj_cfg false jstate0 ex_fed (firstn 2 ex_dos) [(0, true, [83]%N)] = false /\
+  gate_run ex_pj_cfg true jstate0 ex_fed (firstn 2 ex_dos) [(0, true, [83]%N)] = true.
 Proof. vm_compute. repeat split; reflexivity. Qed.
